@@ -10,15 +10,17 @@ import (
 	"strings"
 	"testing"
 
+	"github.com/massnetorg/mass-core/pocec"
 	"github.com/shirou/gopsutil/disk"
 	"massnet.org/mass/poc/engine"
+	"massnet.org/mass/poc/engine/massdb"
 
 	"pgregory.net/rapid"
 	"verif/vlib"
 )
 
 type vfC15Op struct {
-	K     string      `json:"k"` // size | path | bl | flags | remove | delete | restart
+	K     string      `json:"k"` // size | path | bl | flags | remove | delete | restart | plotted | mine
 	Size  uint64      `json:"size,omitempty"`
 	Over  bool        `json:"over,omitempty"` // request free disk space + Size instead
 	Dirs  []int       `json:"dirs,omitempty"`
@@ -53,43 +55,124 @@ func vfGenSize(t *rapid.T, label string) uint64 {
 	}
 }
 
+func vfGenC15Op(t *rapid.T, c *vfC15Case, kinds []string) vfC15Op {
+	op := vfC15Op{K: rapid.SampledFrom(kinds).Draw(t, "kind")}
+	switch op.K {
+	case "size":
+		op.Size = vfGenSize(t, "size")
+		op.Over = rapid.IntRange(0, 9).Draw(t, "over") == 0
+	case "path":
+		nd := rapid.IntRange(1, c.NDirs).Draw(t, "npaths")
+		perm := rapid.Permutation([]int{0, 1, 2}[:c.NDirs]).Draw(t, "perm")
+		for j := 0; j < nd; j++ {
+			op.Dirs = append(op.Dirs, perm[j])
+			op.Sizes = append(op.Sizes, vfGenSize(t, "psize"))
+		}
+		if rapid.IntRange(0, 5).Draw(t, "pover") == 0 {
+			op.OverI = rapid.IntRange(1, nd).Draw(t, "poverI")
+		}
+		if rapid.IntRange(0, 11).Draw(t, "mismatch") == 0 {
+			op.Sizes = op.Sizes[:len(op.Sizes)-1]
+		}
+	case "bl":
+		op.BL = map[int]int{}
+		for _, bl := range rapid.SliceOfNDistinct(rapid.SampledFrom([]int{24, 26, 28, 30, 32}), 1, 3, func(i int) int { return i }).Draw(t, "bls") {
+			op.BL[bl] = rapid.IntRange(0, 3).Draw(t, "cnt")
+		}
+	case "remove", "delete", "mine":
+		op.N = rapid.IntRange(0, 5).Draw(t, "which")
+	}
+	return op
+}
+
 func vfGenC15(t *rapid.T) vfC15Case {
 	c := vfC15Case{NDirs: rapid.IntRange(1, 3).Draw(t, "ndirs")}
+	all := []string{"size", "size", "size", "path", "path", "bl", "flags", "remove", "delete", "restart", "restart", "plotted", "mine", "mine"}
+	conf := []string{"size", "size", "path", "bl", "flags"}
+	if rapid.IntRange(0, 2).Draw(t, "miningScenario") == 0 {
+		// some spaces exist, become plotted, are selected again and mined; then anything (re-configurations above all)
+		if rapid.Bool().Draw(t, "preBL") {
+			c.Ops = append(c.Ops, vfC15Op{K: "bl", BL: map[int]int{24: rapid.IntRange(1, 3).Draw(t, "pre24"), 26: rapid.IntRange(0, 1).Draw(t, "pre26")}})
+		} else {
+			c.Ops = append(c.Ops, vfC15Op{K: "size", Size: uint64(rapid.IntRange(1, 4).Draw(t, "preK")) * vfPlotSize(24)})
+		}
+		if rapid.Bool().Draw(t, "pre2") {
+			c.Ops = append(c.Ops, vfGenC15Op(t, &c, conf))
+		}
+		c.Ops = append(c.Ops, vfC15Op{K: "plotted"})
+		c.Ops = append(c.Ops, vfGenC15Op(t, &c, []string{"flags", "flags", "flags", "size", "bl"}))
+		for i, n := 0, rapid.IntRange(1, 2).Draw(t, "nmine"); i < n; i++ {
+			c.Ops = append(c.Ops, vfC15Op{K: "mine", N: rapid.IntRange(0, 5).Draw(t, "which")})
+		}
+		for i, n := 0, rapid.IntRange(1, 3).Draw(t, "npost"); i < n; i++ {
+			c.Ops = append(c.Ops, vfGenC15Op(t, &c, all))
+		}
+		return c
+	}
 	n := rapid.IntRange(1, 7).Draw(t, "nops")
 	for i := 0; i < n; i++ {
-		op := vfC15Op{K: rapid.SampledFrom([]string{"size", "size", "size", "path", "path", "bl", "flags", "remove", "delete", "restart", "restart"}).Draw(t, "kind")}
-		switch op.K {
-		case "size":
-			op.Size = vfGenSize(t, "size")
-			op.Over = rapid.IntRange(0, 9).Draw(t, "over") == 0
-		case "path":
-			nd := rapid.IntRange(1, c.NDirs).Draw(t, "npaths")
-			perm := rapid.Permutation([]int{0, 1, 2}[:c.NDirs]).Draw(t, "perm")
-			for j := 0; j < nd; j++ {
-				op.Dirs = append(op.Dirs, perm[j])
-				op.Sizes = append(op.Sizes, vfGenSize(t, "psize"))
-			}
-			if rapid.IntRange(0, 5).Draw(t, "pover") == 0 {
-				op.OverI = rapid.IntRange(1, nd).Draw(t, "poverI")
-			}
-			if rapid.IntRange(0, 11).Draw(t, "mismatch") == 0 {
-				op.Sizes = op.Sizes[:len(op.Sizes)-1]
-			}
-		case "bl":
-			op.BL = map[int]int{}
-			for _, bl := range rapid.SliceOfNDistinct(rapid.SampledFrom([]int{24, 26, 28, 30, 32}), 1, 3, func(i int) int { return i }).Draw(t, "bls") {
-				op.BL[bl] = rapid.IntRange(0, 3).Draw(t, "cnt")
-			}
-		case "remove", "delete":
-			op.N = rapid.IntRange(0, 5).Draw(t, "which")
-		}
-		c.Ops = append(c.Ops, op)
+		c.Ops = append(c.Ops, vfGenC15Op(t, &c, all))
 	}
 	return c
 }
 
+// vfReadyDB is a real massdb.v1 header-only plot file that reports itself plotted once the case has declared it so:
+// plotting 2^24 entries for real takes too long per case, and the configuration code only looks at the state.
+type vfReadyDB struct {
+	massdb.MassDB
+	forced map[string]bool
+	key    string
+}
+
+func (d *vfReadyDB) Ready() bool {
+	if d.forced[d.key] {
+		return true
+	}
+	return d.MassDB.Ready()
+}
+
+func (d *vfReadyDB) Progress() (bool, bool, float64) {
+	if d.forced[d.key] {
+		return true, true, 100
+	}
+	return d.MassDB.Progress()
+}
+
+// vfInstallReadyWrap wraps the registered massdb.v1 backend for the duration of one case.
+func vfInstallReadyWrap(forced map[string]bool) func() {
+	vfBackendMu.Lock()
+	idx := -1
+	for i, b := range massdb.DBBackendList {
+		if b.Typ == typeMassDBV1 {
+			idx = i
+		}
+	}
+	if idx < 0 {
+		vfBackendMu.Unlock()
+		return func() {}
+	}
+	old := massdb.DBBackendList[idx]
+	wrap := func(f func(args ...interface{}) (massdb.MassDB, error)) func(args ...interface{}) (massdb.MassDB, error) {
+		return func(args ...interface{}) (massdb.MassDB, error) {
+			d, err := f(args...)
+			if err != nil || d == nil {
+				return d, err
+			}
+			return &vfReadyDB{MassDB: d, forced: forced, key: vfSidOf(args[2].(*pocec.PublicKey), args[3].(int))}, nil
+		}
+	}
+	massdb.DBBackendList[idx].OpenDB = wrap(old.OpenDB)
+	massdb.DBBackendList[idx].CreateDB = wrap(old.CreateDB)
+	return func() {
+		massdb.DBBackendList[idx] = old
+		vfBackendMu.Unlock()
+	}
+}
+
 func vfC15Run(c vfC15Case, ctx *vlib.Ctx) *vlib.Failure {
 	vfSetup()
+	forced := map[string]bool{}
+	defer vfInstallReadyWrap(forced)()
 	root, err := os.MkdirTemp("", "vfc15")
 	if err != nil {
 		panic(err)
@@ -119,7 +202,17 @@ func vfC15Run(c vfC15Case, ctx *vlib.Ctx) *vlib.Failure {
 		}
 		return u.Free
 	}
-	mixed, multiDir, rejectPath := false, false, false
+	mixed, multiDir, rejectPath, miningReconf := false, false, false, false
+	restartKeeper := func(where string) *vlib.Failure {
+		vfCloseKeeper(sk)
+		sk = nil
+		sk2, err := vfNewKeeper(w, dirs)
+		if err != nil {
+			return vlib.Failf("restart-failed", "%s: %v", where, err)
+		}
+		sk = sk2
+		return nil
+	}
 	// every space ever created and not deleted: sid -> info (the restart oracle)
 	alive := map[string]engine.WorkSpaceInfo{}
 	var lastSelection []engine.WorkSpaceInfo
@@ -197,6 +290,38 @@ func vfC15Run(c vfC15Case, ctx *vlib.Ctx) *vlib.Failure {
 				}
 				if mixedNow {
 					mixed = true
+				}
+			}
+			for _, ows := range idxBefore {
+				if ows.state == engine.Mining {
+					miningReconf = true
+				}
+			}
+			// the per-directory listing (the answer of the configure-by-directories API) shows the same selection
+			bdDirs, bdInfos, bdErr := sk.WorkSpaceInfosByDirs()
+			if bdErr != nil {
+				return vlib.Failf("configure:by-dirs-listing-failed", "%s %s: %v", where, reqDesc, bdErr)
+			}
+			bdSums := map[string]uint64{}
+			for i, d := range bdDirs {
+				for _, in := range bdInfos[i] {
+					if !sel[in.SpaceID] {
+						return vlib.Failf("configure:deselected-space-still-listed", "%s %s: WorkSpaceInfosByDirs lists %s under %s, which is not part of the selection just returned", where, reqDesc, in.SpaceID, filepath.Base(d))
+					}
+					bdSums[d] += vfPlotSize(in.BitLength)
+				}
+			}
+			for key, target := range targets {
+				if key != "*" && bdSums[key] > target {
+					return vlib.Failf("configure:exceeds-request", "%s %s: the per-directory listing shows %d bytes for %s, requested %d", where, reqDesc, bdSums[key], key, target)
+				}
+			}
+			// a space that dropped out of the selection is not in use any more
+			for osid := range indexed() {
+				if !sel[osid] {
+					if err := sk.ActOnWorkSpace(osid, engine.Stop); err != ErrWorkSpaceDoesNotExist {
+						return vlib.Failf("configure:deselected-space-still-in-use", "%s %s: stop(%s) on a space outside the selection returned %v, want %v", where, reqDesc, osid, err, ErrWorkSpaceDoesNotExist)
+					}
 				}
 			}
 			// the keeper's own view equals the result
@@ -305,8 +430,15 @@ func vfC15Run(c vfC15Case, ctx *vlib.Ctx) *vlib.Failure {
 			if op.K == "delete" {
 				act = engine.Delete
 			}
+			if ws.state == engine.Mining {
+				if err := sk.ActOnWorkSpace(sid, act); err == nil {
+					return vlib.Failf("remove-accepted-while-mining", "%s: %v on %s", where, act, sid)
+				}
+				ctx.Label("remove-refused-mining")
+				continue
+			}
 			if err := sk.ActOnWorkSpace(sid, act); err != nil {
-				return vlib.Failf("action-refused", "%s: %v on a registered space: %v", where, act, err)
+				return vlib.Failf("action-refused", "%s: %v on a %v space: %v", where, act, ws.state, err)
 			}
 			after := vfListDir(dirs)
 			_, removed, changed := vfDirDiff(before, after)
@@ -325,21 +457,21 @@ func vfC15Run(c vfC15Case, ctx *vlib.Ctx) *vlib.Failure {
 				}
 			}
 		case "restart":
-			cur := append([]string(nil), sk.dbDirs...)
-			vfCloseKeeper(sk)
-			sk = nil
-			sk2, err := vfNewKeeper(w, dirs)
-			if err != nil {
-				return vlib.Failf("restart-failed", "%s: %v", where, err)
+			if f := restartKeeper(where); f != nil {
+				return f
 			}
-			sk = sk2
 			got := indexed()
 			for sid, info := range alive {
 				ws, ok := got[sid]
 				if !ok {
 					return vlib.Failf("restart:space-not-found-again", "%s: space %s (ordinal %d) exists on disk but the restarted keeper did not index it", where, sid, info.Ordinal)
 				}
-				if ws.id.ordinal != info.Ordinal || ws.id.bitLength != info.BitLength || ws.state != info.State {
+				want := engine.Registered // the state comes from the plot file again
+				if forced[sid] {
+					want = engine.Ready
+				}
+				info.State = want
+				if ws.id.ordinal != info.Ordinal || ws.id.bitLength != info.BitLength || ws.state != want {
 					return vlib.Failf("restart:space-differs", "%s: %s re-indexed as ordinal %d bl %d state %v, was %s", where, sid, ws.id.ordinal, ws.id.bitLength, ws.state, vfInfoKey(info))
 				}
 			}
@@ -356,8 +488,38 @@ func vfC15Run(c vfC15Case, ctx *vlib.Ctx) *vlib.Failure {
 					return vlib.Failf("restart:selection-not-found", "%s: selected space %s not found after restart", where, s.SpaceID)
 				}
 			}
-			_ = cur
 			ctx.Label("restart")
+		case "plotted":
+			// every existing space counts as plotted from now on; the keeper learns it the way it does in
+			// production, by loading the files again
+			for sid := range indexed() {
+				forced[sid] = true
+			}
+			if f := restartKeeper(where); f != nil {
+				return f
+			}
+			for sid, ws := range indexed() {
+				if forced[sid] && ws.state != engine.Ready {
+					return vlib.Failf("restart:space-differs", "%s: plotted space %s indexed as %v", where, sid, ws.state)
+				}
+			}
+			lastSelection = nil
+			ctx.Label("plotted")
+		case "mine":
+			ids, _ := sk.WorkSpaceIDs(engine.SFReady)
+			if len(ids) == 0 {
+				ctx.Label("mine-without-ready-space")
+				continue
+			}
+			sort.Strings(ids)
+			sid := ids[op.N%len(ids)]
+			if err := sk.ActOnWorkSpace(sid, engine.Mine); err != nil {
+				return vlib.Failf("action-refused", "%s: mine on a ready space: %v", where, err)
+			}
+			if ws := indexed()[sid]; ws.state != engine.Mining {
+				return vlib.Failf("mine-did-not-move-ready-space", "%s: %s is %v", where, sid, ws.state)
+			}
+			ctx.Label("mine")
 		}
 	}
 	if mixed {
@@ -369,7 +531,10 @@ func vfC15Run(c vfC15Case, ctx *vlib.Ctx) *vlib.Failure {
 	if rejectPath {
 		ctx.Label("reject-path")
 	}
-	if mixed || multiDir || rejectPath {
+	if miningReconf {
+		ctx.Label("reconfigured-with-mining-space")
+	}
+	if mixed || multiDir || rejectPath || miningReconf {
 		ctx.NonTrivial()
 	}
 	return nil
@@ -385,7 +550,7 @@ func vfBase(ps []string) []string {
 
 var vfC15Spec = vlib.Spec[vfC15Case]{
 	Prop: "C15", Name: "configure-capacity",
-	Rule: "1-3 plot directories, 1-7 operations from {ConfigureBySize, ConfigureByPath (1-3 dirs, sizes per dir, mismatched lists), ConfigureByBitLength (bit lengths 24..32), ConfigureByFlags, remove, delete, restart (second keeper on the same directories and wallet)}; sizes around k*PlotSize(24), sums of plot sizes +-1, below the minimum, free disk space + delta for the reject path; real massdb.v1 header files and a real wallet; oracles: selected total <= request and shortfall < PlotSize(24) (per directory for ByPath), no new space while an indexed unselected space of that bit length exists in an allowed directory, new files only under requested directories, exact counts for ByBitLength, rejected requests leave directory listing and wallet key counter unchanged, no existing file altered, a restarted keeper re-indexes exactly the surviving spaces with the same ordinal/bit length/state; non-trivial = a request satisfied by mixing existing and new spaces, or a multi-directory request, or a reject path; distinct = distinct case JSON",
+	Rule: "1-3 plot directories, 1-7 operations from {ConfigureBySize, ConfigureByPath (1-3 dirs, sizes per dir, mismatched lists), ConfigureByBitLength (bit lengths 24..32), ConfigureByFlags, remove, delete, restart (second keeper on the same directories and wallet), plotted (existing spaces report themselves plotted from now on), mine (ready -> mining)}; sizes around k*PlotSize(24), sums of plot sizes +-1, below the minimum, free disk space + delta for the reject path; real massdb.v1 header files and a real wallet; oracles: selected total <= request and shortfall < PlotSize(24) (per directory for ByPath), no new space while an indexed unselected space of that bit length exists in an allowed directory, new files only under requested directories, exact counts for ByBitLength, the per-directory listing shows only the selection and stays within the per-directory request, a de-selected space refuses actions, rejected requests leave directory listing and wallet key counter unchanged, no existing file altered, a restarted keeper re-indexes exactly the surviving spaces with the same ordinal/bit length/state; non-trivial = a request satisfied by mixing existing and new spaces, or a multi-directory request, or a reject path, or a re-configuration while a space is mining; distinct = distinct case JSON",
 	Gen:  vfGenC15, Run: vfC15Run,
 }
 
